@@ -156,6 +156,34 @@ theorem segmentIdeal_smul (hr : IsSqrt r) (x₁ x₂ : Fin (n + 1) → K) (l₁ 
   · exact ⟨E₁, E₂, hE₁, hE₂, Or.inr ⟨hN₁, hN₂⟩⟩
   · exact absurd rfl hne
 
+/-- **the hypothesis `a ≠ 0` of `segmentIdeal_smul` cannot be dropped** (known finding
+`C12-segment-a-zero`).  For the valid segment from `x₁ = (2,1,0)` to `x₂ = (3,1,1)` (both
+timelike, distinct: `0 < disc`) the difference of the representatives is lightlike, `a = 0`;
+the code's `(-b ± √disc) / (2a)` divides by zero (NumPy: NaN; in the model `x / 0 = 0`, so both
+"null vectors" collapse to `x₂`, which is timelike, not null — whatever the root function).
+The same two points with the representative `2·x₁` have `a ≠ 0`: rescaling `x₁` by `1/2` turns a
+well-behaved input into this one. -/
+theorem segment_a_zero_witness (r : ℚ → ℚ) (s : ℚ) :
+    mink (![2, 1, 0] : Fin 3 → ℚ) ![2, 1, 0] < 0 ∧ mink (![3, 1, 1] : Fin 3 → ℚ) ![3, 1, 1] < 0 ∧
+    0 < segDisc (![2, 1, 0] : Fin 3 → ℚ) ![3, 1, 1] ∧
+    segA (![2, 1, 0] : Fin 3 → ℚ) ![3, 1, 1] = 0 ∧
+    segNull r s (![2, 1, 0] : Fin 3 → ℚ) ![3, 1, 1] = ![3, 1, 1] ∧
+    mink (segNull r s (![2, 1, 0] : Fin 3 → ℚ) ![3, 1, 1]) (segNull r s ![2, 1, 0] ![3, 1, 1]) ≠ 0 ∧
+    segA (fun i => (![4, 2, 0] : Fin 3 → ℚ) i * 1) (fun i => (![3, 1, 1] : Fin 3 → ℚ) i * 1) ≠ 0 ∧
+    segA (fun i => (![4, 2, 0] : Fin 3 → ℚ) i * (1 / 2)) (fun i => (![3, 1, 1] : Fin 3 → ℚ) i * 1) = 0 := by
+  have hA : segA (![2, 1, 0] : Fin 3 → ℚ) ![3, 1, 1] = 0 := by
+    simp [segA, mink, dot, Fin.sum_univ_succ, Fin.tail]; norm_num
+  have hN : segNull r s (![2, 1, 0] : Fin 3 → ℚ) ![3, 1, 1] = ![3, 1, 1] := by
+    funext i
+    simp only [segNull, lineComb, segMu, hA, mul_zero, div_zero, zero_mul, sub_zero, one_mul, zero_add]
+  refine ⟨?_, ?_, ?_, hA, hN, ?_, ?_, ?_⟩
+  · simp [mink, dot, Fin.sum_univ_succ, Fin.tail]; norm_num
+  · simp [mink, dot, Fin.sum_univ_succ, Fin.tail]; norm_num
+  · simp [segDisc, segA, segB, segC, mink, dot, Fin.sum_univ_succ, Fin.tail]; norm_num
+  · rw [hN]; simp [mink, dot, Fin.sum_univ_succ, Fin.tail]; norm_num
+  · simp [segA, mink, dot, Fin.sum_univ_succ, Fin.tail]; norm_num
+  · simp [segA, mink, dot, Fin.sum_univ_succ, Fin.tail]; norm_num
+
 /-- centre and radius of the Poincaré circle carrying a geodesic are functions of the
 *projective* ideal endpoints, symmetric in the two (so the unordered pair above suffices) -/
 theorem circleParams_smul (N₁ N₂ : Fin (n + 1) → K) (c d : K) (hc : c ≠ 0) (hd : d ≠ 0) :
